@@ -519,6 +519,48 @@ def desugar_zip_index(body, rules):
     return out
 
 
+def desugar_ref_pattern_for(body, rules):
+    """R20: `for & X in E {` -> `for X__r in __it<k> : ( E ) . iter ( ) { let X = * X__r ;` (E a slice expression without braces):
+    the by-reference pattern binds X to a copy of each element, which is what the inserted `let` does; the label gives loop
+    invariants access to the iterator position (Verus rejects reference patterns)."""
+    out = list(body)
+    i = 0
+    k = 0
+    while i < len(out):
+        if out[i].k == "id" and out[i].s == "for" and i + 4 < len(out) and out[i + 1].s == "&" and out[i + 2].k == "id" and out[i + 3].s == "in":
+            j = i + 4
+            depth = 0
+            ok = True
+            while j < len(out):
+                sj = out[j].s
+                if out[j].k == "p":
+                    if sj in ("(", "["):
+                        depth += 1
+                    elif sj in (")", "]"):
+                        depth -= 1
+                    elif sj == "{" and depth == 0:
+                        break
+                    elif sj in (";", "}"):
+                        ok = False
+                        break
+                j += 1
+            if ok and j < len(out) and j > i + 4:
+                x = out[i + 2].s
+                expr = out[i + 4:j]
+                def T(kk, s_):
+                    return Tok(kk, s_, out[i].a, out[i].b)
+                rep = [T("id", "for"), T("id", x + "__r"), T("id", "in"), T("id", "__it%d" % k), T("p", ":"), T("p", "(")] + expr + \
+                      [T("p", ")"), T("p", "."), T("id", "iter"), T("p", "("), T("p", ")"), T("p", "{"),
+                       T("id", "let"), T("id", x), T("p", "="), T("p", "*"), T("id", x + "__r"), T("p", ";")]
+                out = out[:i] + rep + out[j + 1:]
+                rules.fired.add("R20")
+                k += 1
+                i += len(rep)
+                continue
+        i += 1
+    return out
+
+
 def drop_unused_rev(body, rules):
     """R16: `for _x in ( <lo> .. <hi> ) . rev ( ) {` -> `for _x in <lo> .. <hi> {` when the loop variable starts with `_`
     and does not occur in the loop body: the reversed range yields the same number of values and nothing observes their
@@ -753,6 +795,7 @@ def render_fn(idx, fs, table, ctx):
     body = toks[it.tb + 1:it.t1]
     body = drop_unused_rev(body, rules)
     body = desugar_zip_index(body, rules)
+    body = desugar_ref_pattern_for(body, rules)
     # loop invariants and anchored hints are inserted by token position
     inserts = {}
     if fs.loops:
